@@ -271,7 +271,7 @@ def count_nontrivial(histories, trace):
     return len(seen), nontrivial
 
 
-def engine_check(ctx, gens, facets, jobs=12, labels=None):
+def engine_check(ctx, gens, facets, jobs=12, labels=None, selftests=None):
     """Common body of the engine checks.
     gens: list of dicts {module, cfg, simulate (opt), depth (opt), name}."""
     exe = ctx.build_harness("sim")
@@ -294,6 +294,9 @@ def engine_check(ctx, gens, facets, jobs=12, labels=None):
             for i, line in enumerate(f):
                 if i % max(1, n // 3) == 0:
                     ctx.sample(json.loads(line), limit=8)
+        if selftests and g is gens[0]:
+            spec, cfg, keep, sk_ops = facets[0]
+            corruption_selftest(ctx, os.path.join(ctx.out, g["name"] + ".trace.ndjson"), spec, cfg, keep, sk_ops, selftests)
         os.unlink(os.path.join(ctx.out, g["name"] + ".trace.ndjson"))
     ctx.cov["rule"] = ("environment histories enumerated (BFS, exhaustive up to the bound) or sampled (-simulate) by TLC from "
                        "EnvGen.tla, each replayed against the real library and its recorded trace validated by TLC against the "
@@ -302,3 +305,92 @@ def engine_check(ctx, gens, facets, jobs=12, labels=None):
     if all(not g.get("simulate") for g in gens):
         ctx.cov["exhaustive"] = True
     return tot
+
+
+# ---- binding self-test: a corrupted trace must be rejected -------------------------------------------
+def _histories_of(tracefile, limit=400):
+    cur = []
+    out = []
+    with open(tracefile) as f:
+        for line in f:
+            if line.startswith('{"e":"reset"'):
+                if cur:
+                    out.append(cur)
+                    if len(out) >= limit:
+                        break
+                cur = [line]
+            elif cur:
+                cur.append(line)
+    if cur and len(out) < limit:
+        out.append(cur)
+    return out
+
+
+def corruption_selftest(ctx, tracefile, spec, cfg, keep, sk_ops, mutators):
+    """For each (name, fn) in mutators: fn(list of event dicts) -> corrupted list or None.  Applied to the first
+    recorded history it fits; TLC must reject the corrupted history (and accept the original)."""
+    res = {}
+    hs = _histories_of(tracefile)
+    for name, fn in mutators:
+        done = False
+        for h in hs:
+            evs = [json.loads(x) for x in h]
+            if any(e["e"] == "crash" for e in evs):
+                continue
+            mut = fn([dict(e) for e in evs])
+            if mut is None:
+                continue
+            d = os.path.join(ctx.out, "selftest")
+            os.makedirs(d, exist_ok=True)
+            verd = []
+            for tag, events in (("orig", evs), ("mut", mut)):
+                raw = os.path.join(d, "%s.%s.raw" % (name, tag))
+                with open(raw, "w") as g:
+                    for e in events:
+                        g.write(json.dumps(e, separators=(",", ":")) + "\n")
+                proj = raw + ".p"
+                project(raw, proj, keep, sk_ops)
+                v = validate(ctx, spec, cfg, proj)
+                hid = evs[0]["id"]
+                verd.append(v.get(hid, {}).get("verdict"))
+            if verd[0] != "ACC":
+                continue     # pick another history (this one is not accepted to begin with)
+            if verd[1] != "REJ":
+                raise vlib.MachineryError("binding self-test %s: corrupted trace was NOT rejected by %s" % (name, spec))
+            res[name] = "rejected"
+            done = True
+            break
+        if not done:
+            res[name] = "not applicable to the sampled histories"
+    ctx.notes.setdefault("corrupted_trace_selftest", {}).update(res)
+    return res
+
+
+def mut_dup_event(kind_pred):
+    def fn(evs):
+        for i, e in enumerate(evs):
+            if kind_pred(e):
+                return evs[:i + 1] + [dict(e)] + evs[i + 1:]
+        return None
+    return fn
+
+
+def mut_drop_event(kind_pred):
+    def fn(evs):
+        for i, e in enumerate(evs):
+            if kind_pred(e):
+                return evs[:i] + evs[i + 1:]
+        return None
+    return fn
+
+
+def mut_edit_event(kind_pred, edit):
+    def fn(evs):
+        for i, e in enumerate(evs):
+            if kind_pred(e):
+                e2 = json.loads(json.dumps(e))
+                if edit(e2) is False:
+                    continue
+                return evs[:i] + [e2] + evs[i + 1:]
+        return None
+    return fn
